@@ -63,6 +63,14 @@ func (w *World) newEngine(kind string) (storage.KvStorage, bool, error) {
 				splits = append(splits, b)
 			}
 			sort.Slice(splits, func(i, j int) bool { return string(splits[i]) < string(splits[j]) })
+			// a region cannot be empty
+			var uniq [][]byte
+			for _, b := range splits {
+				if len(uniq) == 0 || string(uniq[len(uniq)-1]) != string(b) {
+					uniq = append(uniq, b)
+				}
+			}
+			splits = uniq
 		}
 		testutils.BootstrapWithMultiRegions(cluster, splits...)
 		store, err := tikv.NewTestTiKVStore(rpcClient, pdClient, nil, nil, 0)
